@@ -7,7 +7,8 @@ from vlib import hexs, unhex
 def bound(cfg):
     lim = cfg.lim
     bmap = 2 * (lim["hlen"] + lim["line"] + 1)
-    return (lim["method"] + 1) + (lim["uri"] + 1) + 2 * (bmap + lim["line"] + 1) + cfg.maxcontent + cfg.maxchunk + 17 + lim["line"] + 1
+    # = ret_bound of coq/P_C06b.v (C06_connection_retains_bounded): request line, header block, body, chunk size line, chunk data, trailers
+    return (lim["method"] + 1) + (lim["uri"] + 1) + 2 * (bmap + lim["line"] + 1) + cfg.maxcontent + cfg.maxchunk + lim["line"] + 1
 
 
 def reject_bound(cfg):
